@@ -57,12 +57,9 @@ func padNodes(p Pad) []*S {
 	}
 	out := make([]*S, 0, p.Size)
 	for i := 0; i < p.Size; i++ {
-		body := ""
-		if i%3 == 1 {
-			body = " c "
-		} else if i%3 == 2 {
-			body = " {{ spy(1) }} "
-		}
+		// empty, plain, tag syntax, and the characters that mean something elsewhere in the
+		// language (quotes that never close, dashes next to the blank after the delimiter)
+		body := []string{"", " c ", " {{ spy(1) }} ", " don't touch ", " say \"hi ", " - note ", " ---- section ---- ", " see above - ", " it's \"both' ", " %} }} "}[i%10]
 		out = append(out, &S{K: "comment", T: BStr(body)})
 	}
 	return out
@@ -190,7 +187,7 @@ func tokenEstimate(body []*S) int {
 	return len(ls) * 3
 }
 
-const c14Rule = "a control-flow program (C09 grammar, with or without whitespace-control dashes) and a padding plan: 1-3 insertion points (before, between, after top-level constructs and inside loop/if bodies) filled with literal text of a size drawn from {1,7,64,1000,4000,4090,4095,4096,4097,4100,5000,8192,20000,65536,100000} (thorough: up to 300000) or with 1..400 comments (token-count thresholds 32 and 1000); non-trivial = the unpadded source is <= 4096 bytes and the padded one is > 4096 bytes, or the comment padding crosses 32 or 1000 tokens; distinct by (context, source, plan)"
+const c14Rule = "a control-flow program (C09 grammar, with or without whitespace-control dashes) and a padding plan: 1-3 insertion points (before, between, after top-level constructs and inside loop/if bodies) filled with literal text of a size drawn from {1,7,64,1000,4000,4090,4095,4096,4097,4100,5000,8192,20000,65536,100000} (thorough: up to 300000) or with 1..400 comments (empty, plain, with tag syntax, with unbalanced quotes, with dashes inside the blanks; token-count thresholds 32 and 1000); non-trivial = the unpadded source is <= 4096 bytes and the padded one is > 4096 bytes, or the comment padding crosses 32 or 1000 tokens; distinct by (context, source, plan)"
 
 func TestC14Padding(t *testing.T) {
 	r := NewRec(t, "C14", c14Rule)
@@ -544,3 +541,65 @@ func TestC14Routes(t *testing.T) {
 }
 
 func init() { reg("C14.route", checkC14Route) }
+
+// ---- a comment inserted next to blank-edged text -----------------------------------------------------
+
+type C14CommentCase struct {
+	Left  BStr `json:"left"`
+	Body  BStr `json:"body"` // comment body; never starts or ends with '-' directly at the delimiter
+	Right BStr `json:"right"`
+	Tail  int  `json:"tail"` // bytes of literal text appended (size class)
+	Form  int  `json:"form"` // what follows the right text: nothing, a print tag, a block
+}
+
+// checkC14Comment: L{# body #}R renders as LR, byte for byte, whatever the comment says and
+// whatever blanks L ends in and R starts with.
+func checkC14Comment(c C14CommentCase) error {
+	after, afterOut := "", ""
+	switch c.Form % 3 {
+	case 1:
+		after, afterOut = "{{ a }}", "7"
+	case 2:
+		after, afterOut = "{% if a %}y{% endif %}", "y"
+	}
+	tail := strings.Repeat("0123456789abcdef", c.Tail/16)
+	src := after + string(c.Left) + "{#" + string(c.Body) + "#}" + string(c.Right) + after + tail
+	want := afterOut + string(c.Left) + string(c.Right) + afterOut + tail
+	r := render(newEngine(map[string]string{"main": src}), "main", map[string]interface{}{"a": 7})
+	if r.Failed() || r.Out != want {
+		return fmt.Errorf("a comment between %s and %s changes more than itself: %v, want %s; source %s", q(string(c.Left)), q(string(c.Right)), trunc(fmt.Sprint(r)), q(trunc(want)), q(trunc(src)))
+	}
+	return nil
+}
+
+func TestC14Comments(t *testing.T) {
+	r := NewRec(t, "C14", "exhaustive: one comment out of 16 bodies (empty, plain, tag syntax, unbalanced quotes, dashes inside the blanks, line breaks, boxed) between texts with 6 x 6 blank edges (none, space, LF, CRLF, tab, blank line), followed by nothing / a print tag / a block, in a short template and in ones padded beyond 4096 and 32768 bytes; oracle: the text without the comment; non-trivial = a blank edge next to the comment")
+	defer r.Flush()
+	r.SetExhaustive()
+	bodies := []string{"", " ", " c ", " {{ spy(1) }} ", " don't touch ", " say \"hi ", " - note ", " ---- section ---- ", " see above - ", " it's \"both' ", " %} }} ", "\n * boxed\n * comment\n ", " a\n", "\n-\n", " -", "- ", " # "}
+	edgesL := []string{"x", "x ", "x\n", "x\r\n", "x\t", "x\n\n  "}
+	edgesR := []string{"y", " y", "\ny", "\r\ny", "\ty", "  \n\ny"}
+	for _, b := range bodies {
+		if strings.HasPrefix(b, "-") || strings.HasSuffix(b, "-") {
+			continue // {#- and -#} are whitespace control on comments: not claimed either way
+		}
+		for li, l := range edgesL {
+			for ri, rr := range edgesR {
+				for form := 0; form < 3; form++ {
+					for _, tail := range []int{0, 4800, 40000} {
+						if tail == 40000 && (li+ri+form)%4 != 0 {
+							continue
+						}
+						c := C14CommentCase{Left: BStr(l), Body: BStr(b), Right: BStr(rr), Tail: tail, Form: form}
+						r.Case(fmt.Sprint(q(b), li, ri, form, tail), li > 0 || ri > 0, q(l+"{#"+b+"#}"+rr))
+						if err := checkC14Comment(c); err != nil {
+							r.FailEnumKey(t, "C14.comment", q(b)+fmt.Sprint(tail), c, err)
+						}
+					}
+				}
+			}
+		}
+	}
+}
+
+func init() { reg("C14.comment", checkC14Comment) }
